@@ -690,6 +690,7 @@ func (fr *Frame) step(in ssa.Instruction, st *State, reach string, back map[[2]i
 	case *ssa.UnOp:
 		fr.unop(x, st, reach)
 	case *ssa.Store:
+		fr.guardedAccess(x, x.Addr, true, st, reach)
 		v := fr.val(x.Val)
 		pt := x.Addr.Type().Underlying().(*types.Pointer)
 		if isAggregate(pt.Elem()) {
@@ -923,6 +924,62 @@ func (fr *Frame) knownNonNil(v ssa.Value, at *ssa.BasicBlock) bool {
 	return false
 }
 
+// guardedAccess: lock discipline obligation for a read/write of a field declared
+// "guarded (*T).f by mu".
+func (fr *Frame) guardedAccess(site ssa.Instruction, addr ssa.Value, write bool, st *State, reach string) {
+	vc := fr.vc
+	if len(vc.DB.Guarded) == 0 {
+		return
+	}
+	fa, ok := addr.(*ssa.FieldAddr)
+	if !ok {
+		return
+	}
+	T := fa.X.Type().Underlying().(*types.Pointer).Elem()
+	sT, ok := structOf(T)
+	if !ok {
+		return
+	}
+	gd := vc.DB.Guarded[typeKey(T)+"."+sT.Field(fa.Field).Name()]
+	if gd == nil {
+		return
+	}
+	applies := len(gd.Props) == 0
+	for _, p := range gd.Props {
+		if p == vc.prop {
+			applies = true
+		}
+	}
+	if !applies || createdHere(fa.X, 0) {
+		return
+	}
+	mi := -1
+	for i := 0; i < sT.NumFields(); i++ {
+		if sT.Field(i).Name() == gd.Mutex {
+			mi = i
+		}
+	}
+	if mi < 0 {
+		vc.warn("guarded %s.%s: no mutex field %s", gd.Recv, gd.Field, gd.Mutex)
+		return
+	}
+	_, mterm := vc.fieldAddr(T, mi, fr.val(fa.X))
+	held := vc.heapVar("$held", "(Array Int Bool)")
+	goal := fmt.Sprintf("(select %s %s)", vc.look(st, held), mterm)
+	kind := "write"
+	if !write {
+		kind = "read"
+		rheld := vc.heapVar("$rheld", "(Array Int Int)")
+		goal = fmt.Sprintf("(or %s (> (select %s %s) 0))", goal, vc.look(st, rheld), mterm)
+	}
+	fr.callSeq["guarded"]++
+	nm := fmt.Sprintf("%s/%s/guarded[%s.%s by %s]/%s#%d", vc.prop, vc.qname, gd.Recv, gd.Field, gd.Mutex, kind, fr.callSeq["guarded"])
+	if fr.parent != nil {
+		nm += " in " + QualName(fr.fn)
+	}
+	vc.oblige("guarded", nm, fmt.Sprintf("%s of %s.%s with %s held", kind, gd.Recv, gd.Field, gd.Mutex), reach, goal, site.Pos(), true)
+}
+
 func (fr *Frame) inRecoverScope() bool {
 	for f := fr; f != nil; f = f.parent {
 		if f.spec != nil && f.spec.Flags["recover-scope"] {
@@ -1010,6 +1067,7 @@ func (fr *Frame) unop(x *ssa.UnOp, st *State, reach string) {
 	vc := fr.vc
 	switch x.Op {
 	case token.MUL: // load
+		fr.guardedAccess(x, x.X, false, st, reach)
 		pt := x.X.Type().Underlying().(*types.Pointer)
 		if g, ok := x.X.(*ssa.Global); ok {
 			if full, ok := vc.DB.FuncAlias[shortPkg(g.Pkg.Pkg.Path())+"."+g.Name()]; ok && fr.fn.Name() != "init" {
